@@ -5102,6 +5102,29 @@ class PyCdlib:
 
         num_bytes_to_remove = 0
 
+        # The directory is removed from one filesystem after the other, so make
+        # sure up front that the Joliet and UDF parts can be removed as well.
+        if joliet_path is not None:
+            if self.joliet_vd is None:
+                raise pycdlibexception.PyCdlibInvalidInput('A Joliet path can only be specified for a Joliet ISO')
+            joliet_check = self._find_joliet_record(self._normalize_joliet_path(joliet_path))
+            if joliet_check.is_root:
+                raise pycdlibexception.PyCdlibInvalidInput('Cannot remove base directory')
+            if not joliet_check.is_dir():
+                raise pycdlibexception.PyCdlibInvalidInput('Cannot remove a file with rm_directory (try rm_file instead)')
+            if len(joliet_check.children) > 2:
+                raise pycdlibexception.PyCdlibInvalidInput('Directory must be empty to use rm_directory')
+        if udf_path is not None:
+            if self.udf_root is None:
+                raise pycdlibexception.PyCdlibInvalidInput('Can only specify a UDF path for a UDF ISO')
+            if utils.normpath(udf_path) == b'/':
+                raise pycdlibexception.PyCdlibInvalidInput('Cannot remove base directory')
+            (udf_ident_check, udf_check) = self._find_udf_record(utils.normpath(udf_path))
+            if udf_check is None or not udf_check.is_dir():
+                raise pycdlibexception.PyCdlibInvalidInput('Cannot remove a file with rm_directory (try rm_file instead)')
+            if len(udf_check.fi_descs) > 1:
+                raise pycdlibexception.PyCdlibInvalidInput('Directory must be empty to use rm_directory')
+
         if iso_path is not None:
             iso_path_bytes = utils.normpath(iso_path)
 
